@@ -63,11 +63,11 @@ const DomEntry *find_domain(const std::string &name) {
 // every parameter is reset to its default first, so a configuration is a
 // complete, reproducible setting of the global parameter object
 void apply_config(const Config &c) {
-  crab::domains::crab_domain_params fresh;
-  crab::domains::crab_domain_params_man::get().update_params(fresh);
-  crab::domains::crab_domain_params_man::get().coefficients().clear();
+  crab::domains::crab_domain_params_man::get() = crab::domains::crab_domain_params();
   for (auto &kv : c.params) crab::domains::crab_domain_params_man::get().set_param(kv.first, kv.second);
 }
+
+void quiet_crab() { crab::CrabEnableWarningMsg(false); }
 
 std::string Itv::str() const {
   if (bottom) return "_|_";
